@@ -1352,7 +1352,12 @@ class BaseGaussianState(BaseState):
         cutoff = kwargs.get("cutoff", 10)
         mu, cov = self.reduced_gaussian(modes)  # pylint: disable=unused-variable
 
-        if self.is_pure:
+        # the reduced state of a pure state is in general mixed: test the purity of the reduced state
+        reduced_pure = (
+            np.abs(np.linalg.det(cov) - (self._hbar / 2) ** (2 * len(modes))) < self.EQ_TOLERANCE
+        )
+
+        if reduced_pure:
             psi = twq.state_vector(
                 mu,
                 cov,
@@ -1361,7 +1366,10 @@ class BaseGaussianState(BaseState):
                 cutoff=cutoff,
                 check_purity=False,
             )
-            rho = np.outer(psi, psi.conj())
+            # two indices per mode, ordered (n_1, m_1, n_2, m_2, ...) like the mixed-state branch
+            rho = np.multiply.outer(psi, psi.conj())
+            num = len(modes)
+            rho = rho.transpose([i for pair in zip(range(num), range(num, 2 * num)) for i in pair])
             return rho
 
         return twq.density_matrix(mu, cov, hbar=self._hbar, normalize=True, cutoff=cutoff)
